@@ -35,8 +35,23 @@ inductive Key where
   | csc
   deriving DecidableEq, Repr
 
-/-- a call on the array: the key says which method and which (normalised) argument -/
-abbrev Call := Key
+/-- A call on the array, with its argument normalised the way the method does before it reaches the
+cache (axes non-negative, `-1` in a shape resolved).  `reshape` tests `self.shape == shape` on the
+caller's tuple BEFORE resolving `-1`, so whether the caller's tuple was literal is part of the call:
+`x.reshape((-1, 3))` on a `(2, 3)` array is not the early return, it is a lookup with key `(2, 3)`. -/
+inductive Call where
+  | transpose (axes : List Nat)
+  | reshape (shape : List Nat) (literal : Bool)
+  | csr
+  | csc
+  deriving DecidableEq, Repr
+
+/-- the key a call is cached under -/
+def Call.key : Call → Key
+  | .transpose axes => .transpose axes
+  | .reshape sh _ => .reshape sh
+  | .csr => .csr
+  | .csc => .csc
 
 /-- `deque(maxlen=3)` -/
 def capacity : Nat := 3
@@ -67,7 +82,7 @@ structure Ops (Val : Type) where
 /-- the call as executed with caching disabled (`self._cache is None`) -/
 def uncached (o : Ops Val) : Call → Except Err Val
   | .transpose axes => if axes = List.range o.shape.length then .ok o.self else o.compute (.transpose axes)
-  | .reshape sh => if sh = o.shape then .ok o.self else o.compute (.reshape sh)
+  | .reshape sh lit => if lit = true ∧ sh = o.shape then .ok o.self else o.compute (.reshape sh)
   | .csr => o.compute .csr
   | .csc => (o.compute .csr).map o.csrToCsc
 
@@ -92,8 +107,8 @@ def step (o : Ops Val) (s : State Val) : Call → State Val × Except Err Val
     if axes = List.range o.shape.length then (s, .ok o.self) else
     let r := viaDeque o s.tr (.transpose axes)
     ({ s with tr := r.1 }, r.2)
-  | .reshape sh =>
-    if sh = o.shape then (s, .ok o.self) else
+  | .reshape sh lit =>
+    if lit = true ∧ sh = o.shape then (s, .ok o.self) else
     let r := viaDeque o s.rs (.reshape sh)
     ({ s with rs := r.1 }, r.2)
   | .csr =>
@@ -142,13 +157,13 @@ structure Obs where
 
 def isSelf (o : Ops Val) : Call → Bool
   | .transpose axes => axes = List.range o.shape.length
-  | .reshape sh => sh = o.shape
+  | .reshape sh lit => lit && decide (sh = o.shape)
   | _ => false
 
 def isHit (o : Ops Val) (s : State Val) (c : Call) : Bool :=
   !isSelf o c && match c with
-  | .transpose _ => (lookup s.tr c).isSome
-  | .reshape _ => (lookup s.rs c).isSome
+  | .transpose _ => (lookup s.tr c.key).isSome
+  | .reshape _ _ => (lookup s.rs c.key).isSome
   | .csr => s.csr.isSome
   | .csc => s.csc.isSome
 
